@@ -304,7 +304,7 @@ def correspond(ctx):
   ctx._c05_cases = []
   ctx._c05_case_budget = ctx.n(400, 6000)
   t0 = time.time()
-  budget = ctx.n(22, 1500)
+  budget = ctx.n(18, 1500)
   n = 0
   evals = 0
   for i in range(ctx.n(40, 1200)):
@@ -374,11 +374,33 @@ def search(ctx):
   ctx.log('shared run: %d C05 issues' % sum(1 for it in res['issues'] if it['prop'] == 'C05'))
   # 2. own stream
   t0 = time.time()
-  budget = ctx.n(14, 1500)
+  budget = ctx.n(10, 1500)
   for i in range(ctx.n(30, 1500)):
     if time.time() - t0 > budget or len(ctx.violations) > 10:
       break
     oracle_history(ctx, ctx.rng.randrange(1 << 30), ctx.n(8, 12), 'c05-stream')
+  # 2b. small documents of the named dependency shapes with dense edits
+  t0 = time.time()
+  budget = ctx.n(10, 1500)
+  for i in range(ctx.n(60, 4000)):
+    if time.time() - t0 > budget or len(ctx.violations) > 10:
+      break
+    hist = c05lib.directed_history(random.Random(ctx.rng.randrange(1 << 30)))
+    e, _ = G.new_doc()
+    done = []
+    for b in hist:
+      c05lib.apply_or_clean(e, copy.deepcopy(b))
+      try:
+        res = oracle(e)
+      except Exception as ex:
+        ctx.violation('scratch-raises', 'scratch recalculation raised %r' % (ex,),
+                      {'history': copy.deepcopy(done), 'bundle': copy.deepcopy(b)})
+        break
+      ctx.count(('directed', i, len(done)), nontrivial=len(done) >= 4, kind='oracle:directed-shapes')
+      if res is not None:
+        report(ctx, e, res, done, b)
+        break
+      done.append(b)
   ctx.log('own stream done: %d violations so far' % len(ctx.violations))
   # 3. programs cyclic through a lookup (reported under C05/C18 only)
   for i in range(ctx.n(6, 60)):
